@@ -2,7 +2,8 @@
 them through several call histories and prints one JSON object {case id: sha256 of saved bytes}."""
 import hashlib, io, json, logging, os, random, shutil, sys, tempfile
 logging.disable(logging.CRITICAL)
-sys.path.insert(0, "/verif")
+HERE = os.path.dirname(os.path.dirname(os.path.abspath(__file__)))
+sys.path.insert(0, HERE)
 from fractions import Fraction as Fr
 from harness import dsgen
 from harness.fonts import build_font, gen_component_font
@@ -49,7 +50,8 @@ def main():
     import ufo2ft
     out = {}
     rng = random.Random(seed)
-    work = tempfile.mkdtemp(prefix="c08-", dir="/verif/.work")
+    os.makedirs(os.path.join(HERE, ".work"), exist_ok=True)
+    work = tempfile.mkdtemp(prefix="c08-", dir=os.path.join(HERE, ".work"))
     try:
         for i in range(n):
             desc = static_desc(rng)
